@@ -4,12 +4,14 @@ package all
 import (
 	"verif/harness/core"
 	"verif/harness/props/c03"
+	"verif/harness/props/c17"
 )
 
 func Specs() map[string]*core.Spec {
 	m := map[string]*core.Spec{}
 	for _, s := range []*core.Spec{
 		c03.Spec(),
+		c17.Spec(),
 	} {
 		m[s.ID] = s
 	}
